@@ -363,7 +363,7 @@ def fixed_rows(fixed_source, encoding, field_name_and_lengths, line_delimiter="a
         return result
 
     if isinstance(fixed_source, str):
-        fixed_file = io.open(fixed_source, "r", encoding=encoding)
+        fixed_file = io.open(fixed_source, "r", encoding=encoding, newline="")
         is_opened = True
     else:
         fixed_file = fixed_source
@@ -423,6 +423,8 @@ def fixed_rows(fixed_source, encoding, field_name_and_lengths, line_delimiter="a
             if len(row) > 0:
                 yield row
                 location.advance_line()
+    except UnicodeDecodeError as error:
+        raise errors.DataFormatError("cannot decode fixed data: %s" % error, location)
     finally:
         if is_opened:
             fixed_file.close()
